@@ -19,6 +19,9 @@ Three kinds of case.
        finds the lock held just loses its turn), REAL `RemoteFdExecutor.receive_from_work_queue`
        on the other end; vs `Modes.hrun lockedProg`; oracle: every hand-off's address and descriptor
        arrive as a pair, in order, no exception.
+`hf`   framing of that hand-off under the configuration dimension: unix-socket flag set or not x
+       connections accepted on a TCP listener (--ports) or on the unix listener; sender and receiver
+       must agree on whether an address precedes the descriptor; vs `Modes.framedPipe` / `recvFramed`.
 `live` LIVE differential run: one scenario of the corpus against real `proxy.Proxy(...)` instances
        in the three modes (acceptors = workers = nw) on loopback with in-process origin servers;
        per mode the canonical transcript (per client: bytes received then EOF/RST; per origin
@@ -57,6 +60,7 @@ THEOREMS = [
     'Px.Modes.C17_local_remote_identical', 'Px.Modes.C17_same_transcript_partial',
     'Px.Modes.C17_flush_vs_deferral', 'Px.Modes.C17_raised_pending_differs', 'Px.Modes.C17_raised_difference',
     'Px.Modes.C17_handoff_atomic', 'Px.Modes.C17_handoff_needs_lock',
+    'Px.Modes.C17_handoff_framing', 'Px.Modes.C17_handoff_framing_mismatch', 'Px.Idle.C17_idle_reaping_bounded',
 ]
 NO_FORK = True
 RULE = ('h: conversation script (rounds of readiness + recv/send outcomes, is_inactive clock outcomes, _flush '
@@ -528,6 +532,10 @@ def _flags(mode):
             _FLAGS[mode] = FlagParser.initialize(['--threaded'], threadless=False, threaded=True)
         elif mode == 'local':
             _FLAGS[mode] = FlagParser.initialize(['--threadless', '--local-executor', '1'], threadless=True)
+        elif mode == 'remote-unix':
+            _FLAGS[mode] = FlagParser.initialize(
+                ['--threadless', '--local-executor', '0', '--unix-socket-path', '/tmp/c17-never-bound.sock',
+                 '--ports', '0'], threadless=True)
         else:
             _FLAGS[mode] = FlagParser.initialize(['--threadless', '--local-executor', '0'], threadless=True)
     return _FLAGS[mode]
@@ -538,7 +546,7 @@ def _preload():
     import proxy.core.work.delegate     # noqa: F401
     import proxy.core.work.fd           # noqa: F401
     import proxy.proxy                  # noqa: F401
-    for m in MODE_ORDER:
+    for m in MODE_ORDER + ['remote-unix']:
         _flags(m)
 
 
@@ -802,10 +810,15 @@ def _ho_batch(cases):
 
 def _prefetch_ho(cases, chunk=40):
     """observe many hand-off cases per forked child (a fork of the engine process costs more than a case)"""
-    todo = [c for c in cases if c.get('kind') == 'ho' and _key(c) not in _HOCACHE]
+    for kind, batch in (('ho', _ho_batch), ('hf', _hf_batch)):
+        _prefetch_kind(cases, kind, batch, chunk)
+
+
+def _prefetch_kind(cases, kind, batch, chunk):
+    todo = [c for c in cases if c.get('kind') == kind and _key(c) not in _HOCACHE]
     for i in range(0, len(todo), chunk):
         part = todo[i:i + chunk]
-        res = _forked(_ho_batch, part, None, budget=40 + 2 * len(part))
+        res = _forked(batch, part, None, budget=40 + 2 * len(part))
         if res is not None and len(res) == len(part):
             for c, r in zip(part, res):
                 _HOCACHE[_key(c)] = tuple(r)
@@ -936,6 +949,118 @@ def _run_ho_inner(case):
     elif any(a != f or a < 0 for a, f in pairs) or len(pairs) != k:
         fail = 'handoff: address and descriptor not received as a pair (%s)' % csv(['%d:%d' % p for p in pairs])
     return (line, fail)
+
+
+def _run_hf_inner(case):
+    """framing of the hand-off under a configuration: REAL delegate_work_to_pool called the way Acceptor._work
+    calls it (unix_socket_path = flags.unix_socket_path) for connections accepted on a TCP listener ('t') or on
+    a unix listener ('u'), REAL RemoteFdExecutor.receive_from_work_queue with the same flags.
+    -> (line, failure or None)"""
+    import proxy.core.work.delegate as D
+    from proxy.core.work.fd import RemoteFdExecutor
+    flags = _flags('remote-unix' if case['unix'] else 'remote')
+    kinds = case['kinds']
+    d = tempfile.mkdtemp(prefix='c17hf-')
+    try:
+        tl = socket.socket()
+        tl.bind(('127.0.0.1', 0))
+        tl.listen(16)
+        ul = socket.socket(socket.AF_UNIX, socket.SOCK_STREAM)
+        ul.bind(os.path.join(d, 'l.sock'))
+        ul.listen(16)
+        clients, accepted = [], []
+        for kd in kinds:
+            if kd == 't':
+                clients.append(socket.create_connection(tl.getsockname()))
+                conn, addr = tl.accept()
+            else:
+                c = socket.socket(socket.AF_UNIX, socket.SOCK_STREAM)
+                c.connect(os.path.join(d, 'l.sock'))
+                clients.append(c)
+                conn, addr = ul.accept()
+            accepted.append((conn, addr or None))       # Acceptor.accept: `works.append((conn, addr or None))`
+        inode = {os.fstat(c.fileno()).st_ino: i for i, (c, _) in enumerate(accepted)}
+        pr, pw = multiprocessing.Pipe(duplex=True)
+        lock = multiprocessing.Lock()
+        log = []
+        cur = [0]
+
+        class Conn:
+            def send(self, obj):
+                pw.send(obj)
+                log.append('a%d' % cur[0])
+
+            def fileno(self):
+                return pw.fileno()
+
+            def __getattr__(self, name):
+                return getattr(pw, name)
+        real_send_handle = D.send_handle
+
+        def send_handle(conn, handle, pid):
+            real_send_handle(conn, handle, pid)
+            log.append('f%d' % cur[0])
+        D.send_handle = send_handle
+        err = None
+        try:
+            for i, (conn, addr) in enumerate(accepted):
+                cur[0] = i
+                D.delegate_work_to_pool(os.getpid(), Conn(), lock, conn, addr, flags.unix_socket_path)
+        except BaseException as e:      # noqa
+            err = type(e).__name__
+        finally:
+            D.send_handle = real_send_handle
+        ex = RemoteFdExecutor('1', pr, flags)
+        got = []
+        ex.work = lambda fileno, addr, conn: got.append((addr, fileno))
+        exc = None
+        for _ in range(len(kinds)):
+            if not pr.poll(2):
+                exc = 'nothing-to-receive'
+                break
+            try:
+                ex.receive_from_work_queue()
+            except BaseException as e:      # noqa
+                exc = type(e).__name__
+                break
+        want_addr = {i: (tuple(a) if a else None) for i, (_, a) in enumerate(accepted)}
+        pairs, wrong = [], False
+        for addr, fileno in got:
+            try:
+                f = inode.get(os.fstat(fileno).st_ino, -1)
+            except OSError:
+                f = -1
+            if addr is None:
+                pairs.append('-:%d' % f)
+            else:
+                a = [i for i, w in want_addr.items() if w == tuple(addr)]
+                pairs.append('%d:%d' % (a[0] if a else -1, f))
+                wrong = wrong or not a or a[0] != f
+            wrong = wrong or f < 0
+        csv = lambda l: ','.join(l) if l else '.'      # noqa: E731
+        line = 'framing pipe=%s recv=%s' % (csv(log), 'exc' if (exc or err) else csv(pairs))
+        fail = None
+        if err:
+            fail = 'framing: delegate raised %s' % err
+        elif exc:
+            fail = 'framing: worker receive side raised %s (unix flag %d, connections %s, pipe %s)' % (
+                exc, case['unix'], kinds, csv(log))
+        elif wrong or len(got) != len(kinds) or [p.split(':')[1] for p in pairs] != [str(i) for i in range(len(kinds))]:
+            fail = 'framing: descriptors / addresses not received in order as sent (%s)' % csv(pairs)
+        return (line, fail)
+    finally:
+        shutil.rmtree(d, ignore_errors=True)
+
+
+def _hf_batch(cases):
+    return [list(_run_hf_inner(c)) for c in cases]
+
+
+def run_hf(case):
+    k_ = _key(case)
+    if k_ not in _HOCACHE:
+        _HOCACHE[k_] = _forked(_run_hf_inner, case, ('framing crashed', 'crashed'))
+    return _HOCACHE[k_]
 
 
 # ==========================================================================
@@ -1092,7 +1217,7 @@ class Origin:
             buf = bytearray(body[n:])
             body = bytes(body[:n])
             close = hdrs.get(b'connection', b'').lower() == b'close'
-            m = re.match(rb'^/(len|close|chunked|status)/(\d+)', path)
+            m = re.match(rb'^/(len|close|chunked|status|trickle)/(\d+)', path)
             if path.startswith(b'/echo'):
                 c.sendall(b'HTTP/1.1 200 OK\r\nContent-Type: application/octet-stream\r\nContent-Length: %d\r\n\r\n'
                           % len(body) + body)
@@ -1111,6 +1236,14 @@ class Origin:
                     piece = data[i:i + 1000]
                     out += b'%x\r\n' % len(piece) + piece + b'\r\n'
                 c.sendall(out + b'0\r\n\r\n')
+            elif m and m.group(1) == b'trickle':
+                # a steady trickle for <k> ms, then close (timing-dependent length: background traffic only)
+                c.sendall(b'HTTP/1.1 200 OK\r\nConnection: close\r\n\r\n')
+                t_stop = time.time() + int(m.group(2)) / 1000.0
+                while time.time() < t_stop:
+                    c.sendall(b'trickle-' * 8)
+                    time.sleep(0.004)
+                close = True
             elif m and m.group(1) == b'status':
                 k = int(m.group(2))
                 c.sendall(b'HTTP/1.1 %d Status\r\nContent-Length: 6\r\n\r\nstatus' % k)
@@ -1138,9 +1271,18 @@ class Origin:
 class _Conv:
     """one client conversation: steps -> transcript (bytes received, then eof / rst / open / hang)"""
 
-    def __init__(self, addr, steps):
+    def __init__(self, addr, steps, targets=None):
         self.addr = addr
         self.steps = steps
+        self.bg = False             # background traffic: its byte count is timing, not compared
+        self.lenient = False        # closed-before-served may show as EOF, RST or EPIPE: one event
+        for st in steps:
+            if st[0] == 'to' and targets:
+                self.addr = targets[st[1]]
+            elif st[0] == 'bg':
+                self.bg = True
+            elif st[0] == 'lenient':
+                self.lenient = True
         self.data = bytearray()
         self.buf = bytearray()
         self.end = None
@@ -1196,7 +1338,12 @@ class _Conv:
     def run(self):
         s = None
         try:
-            s = socket.create_connection(self.addr, timeout=IO_TIMEOUT)
+            if isinstance(self.addr, str):
+                s = socket.socket(socket.AF_UNIX, socket.SOCK_STREAM)
+                s.settimeout(IO_TIMEOUT)
+                s.connect(self.addr)
+            else:
+                s = socket.create_connection(self.addr, timeout=IO_TIMEOUT)
             s.settimeout(IO_TIMEOUT)
             for st in self.steps:
                 op = st[0]
@@ -1253,11 +1400,16 @@ def _dg(x):
 FLAGSETS = {
     'A': [],
     'B': ['--basic-auth', 'user:pass'],
+    'T': ['--timeout', '1'],                                    # idle reaping
+    'U': ['--unix-socket-path', '@SOCK@', '--ports', '0'],      # unix listener + one extra TCP listener
 }
+IDLE_TIMEOUT = 1.0
+IDLE_SILENCE = 3.3          # silence exceeds the timeout by > 2 s: beyond the bounded delay of either mode
 
 
 def scenario_flagset(scn):
-    return 'B' if scn.startswith('auth') else 'A'
+    return 'B' if scn.startswith('auth') else 'T' if scn.startswith('idle') else \
+        'U' if scn.startswith('seq_unix') else 'A'
 
 
 def build_convs(case, pport):
@@ -1343,6 +1495,30 @@ def build_convs(case, pport):
             # does not read a large response, then sends a follow-up request that makes the pipeline parser raise
             return [('send', get(b'/len/%d' % sz)), ('sleep', 1.0),
                     ('send', get(b'/len/1', b'Content-Length: x\r\n')), ('sleep', 0.3), ('eof',)]
+        if scn in ('idle_busy_neighbours', 'idle_alone', 'idle_active_kept'):
+            # --timeout 1.  Conversation 0 is silent for IDLE_SILENCE s and only then sends a request: every
+            # mode must have dropped it by then (C20 bounds) - it is closed without being served.  Meanwhile
+            # (idle_busy_neighbours) two CONNECT tunnels carry a steady trickle on the same executor.
+            late = get(b'/len/%d' % sz)
+            trickle = [('bg',), ('send', b'CONNECT 127.0.0.1:%d HTTP/1.1\r\nHost: 127.0.0.1:%d\r\n\r\n' % (oh, oh)),
+                       ('until', b'\r\n\r\n'),
+                       ('send', b'GET /trickle/%d HTTP/1.1\r\nHost: o\r\n\r\n' % int((IDLE_SILENCE + 1.2) * 1000)),
+                       ('eof',)]
+            if scn == 'idle_active_kept':
+                # a client that keeps talking (a request every 0.4 s, well inside the timeout) is never dropped
+                if i > 0:
+                    return trickle
+                steps = []
+                for j in range(8):
+                    steps += [('send', get(b'/len/%d' % (sz + j))), ('http',), ('sleep', 0.4)]
+                return steps + [('shut',), ('eof',)]
+            if i == 0:
+                return [('lenient',), ('sleep', IDLE_SILENCE), ('send', late), ('eof',)]
+            return trickle
+        if scn == 'seq_unix_tcp':
+            # --unix-socket-path + --ports: a TCP client on the extra port, then a unix-socket client, then TCP again
+            via = ['tcp', 'unix', 'tcp', 'unix'][i % 4]
+            return [('to', via), ('send', get(b'/len/%d' % (sz + i), b'Connection: close\r\n')), ('http',), ('eof',)]
         if scn == 'burst':
             # many connections at the same moment (several acceptors handing off to one worker)
             return [('send', b'GET /burst-%d HTTP/1.1\r\nHost: px\r\n\r\n' % i), ('eof',)]
@@ -1369,6 +1545,10 @@ QUICK_SCENARIOS = [
     ('fwd_post', 1048576, 1), ('fwd_post', 20000, 3), ('mixed', 40000, 4),
 ]
 
+
+# --timeout 1 (idle reaping next to busy connections) and --unix-socket-path + --ports
+IDLES = [('idle_busy_neighbours', 1000, 3), ('idle_alone', 1000, 1), ('idle_active_kept', 500, 2),
+         ('seq_unix_tcp', 3000, 2), ('seq_unix_tcp', 3001, 4)]
 
 # 4 acceptors x 1 worker, 16-50 clients at once (every hand-off goes to the same worker pipe)
 BURSTS = [('burst', 1, 16), ('burst', 2, 48), ('burst_fwd', 1, 24)]
@@ -1421,10 +1601,18 @@ def _socket_fds(pids):
     return n
 
 
-def _run_scenario(case, pport, origins):
+def _run_scenario(case, pport, origins, targets=None):
     for o in origins.values():
         o.reset()
-    convs = [_Conv(('127.0.0.1', pport), st) for st in build_convs(case, pport)]
+    targets = targets or {'main': ('127.0.0.1', pport)}
+    convs = [_Conv(targets['main'], st, targets) for st in build_convs(case, pport)]
+    if case['scn'].startswith('seq_'):
+        # one conversation after the other
+        for c in convs:
+            t = threading.Thread(target=c.run, daemon=True)
+            t.start()
+            t.join(SCN_TIMEOUT)
+        return _scenario_lines(convs, origins)
     gate = threading.Barrier(len(convs))
 
     def go(c):
@@ -1439,10 +1627,19 @@ def _run_scenario(case, pport, origins):
         t.start()
     for t in ths:
         t.join(max(0.1, SCN_TIMEOUT - (time.time() - t0)))
+    return _scenario_lines(convs, origins)
+
+
+def _scenario_lines(convs, origins):
     lines = []
     for i, c in enumerate(convs):
         end = c.end if c.end is not None else 'hang'
-        lines.append('C%d %s %s' % (i, _dg(c.data), end))
+        if c.lenient and not c.data and end in ('eof', 'rst', 'eof-early', 'oserror-EPIPE', 'oserror-ECONNRESET'):
+            end = 'closed-unserved'
+        if c.bg:
+            lines.append('C%d background %s' % (i, 'hang' if end == 'hang' else 'done'))
+        else:
+            lines.append('C%d %s %s' % (i, _dg(c.data), end))
     # origin connections end when the proxy closes them
     t_end = time.time() + 5.0
     while time.time() < t_end:
@@ -1473,7 +1670,7 @@ def _run_config(mode, nw, fs, cases, na=None):
         '--hostname', '127.0.0.1', '--port', '0', '--enable-web-server', '--enable-reverse-proxy',
         '--enable-static-server', '--static-server-dir', d, '--min-compression-length', '1000000000',
         '--plugins', 'harness.c17.C17WebPlugin,harness.c17.C17ReversePlugin',
-    ] + FLAGSETS[fs]
+    ] + [x.replace('@SOCK@', os.path.join(d, 'px.sock')) for x in FLAGSETS[fs]]
     saved = {}
     main_thread = threading.current_thread() is threading.main_thread()
     if main_thread:
@@ -1487,12 +1684,16 @@ def _run_config(mode, nw, fs, cases, na=None):
         p.setup()                       # forks acceptors / workers: no harness thread exists yet
         started = True
         pport = p.flags.port
+        targets = {'main': ('127.0.0.1', pport)}
+        if fs == 'U':
+            sock_path = os.path.join(d, 'px.sock')
+            targets = {'main': sock_path, 'unix': sock_path, 'tcp': ('127.0.0.1', p.flags.ports[0])}
         for o in origins.values():
             o.start()
         procs = sorted(set(_descendants(os.getpid())) - before)
         # warm-up conversation (not recorded): every process has served or at least started
         for _ in range(2 * max(nw, na or nw) + 1):
-            w = _Conv(('127.0.0.1', pport), [('send', b'GET /c17/hello HTTP/1.1\r\nHost: px\r\n\r\n'), ('http',)])
+            w = _Conv(targets['main'], [('send', b'GET /c17/hello HTTP/1.1\r\nHost: px\r\n\r\n'), ('http',)])
             w.run()
         # baseline once every process has finished starting (event loops, queues): stable for 0.4 s
         base, same, t_end = _socket_fds(procs), 0, time.time() + 10.0
@@ -1507,7 +1708,7 @@ def _run_config(mode, nw, fs, cases, na=None):
                 # this mode no longer serves connections: do not wait out every remaining scenario
                 out[_key(c)] = ['hang (skipped: the two scenarios before it hung)']
                 continue
-            lines = _run_scenario(c, pport, origins)
+            lines = _run_scenario(c, pport, origins, targets)
             hangs = hangs + 1 if any(ln.endswith(' hang') for ln in lines) else 0
             # descriptor hygiene: every socket of the scenario is closed again in every proxy process
             t_end = time.time() + 3.0
@@ -1711,6 +1912,8 @@ def impl(case):
         return [run_fd(case)[0]]
     if k == 'ho':
         return [run_ho(case)[0]]
+    if k == 'hf':
+        return [run_hf(case)[0]]
     _observe_live(case)
     return ['live modes-equal=%d' % (1 if _live_sig(case) is None else 0)]
 
@@ -1724,6 +1927,8 @@ def model_lines(case):
         return ['modes fds %s %d' % (case['mode'], case['finished'])]
     if k == 'ho':
         return ['modes handoff ' + ','.join(str(t) for t in ho_full_sched(case))]
+    if k == 'hf':
+        return ['modes framing %d %s' % (case['unix'], case['kinds'] or '.')]
     return ['modes live']
 
 
@@ -1740,6 +1945,8 @@ def oracle(case):
         return None
     if k == 'ho':
         return run_ho(case)[1]
+    if k == 'hf':
+        return run_hf(case)[1]
     _observe_live(case)
     return _live_sig(case)
 
@@ -1884,9 +2091,20 @@ def ho_case(k, sched):
     return {'kind': 'ho', 'k': k, 'sched': list(sched)}
 
 
-def ho_cases(rng, big):
+def hf_cases(big):
+    """unix flag x every sequence of connection kinds up to length 4 (6): TCP only without the unix listener"""
     import itertools
     out = []
+    for n in range(0, 5 if not big else 7):
+        out.append({'kind': 'hf', 'unix': 0, 'kinds': 't' * n})
+        for ks in itertools.product('tu', repeat=n):
+            out.append({'kind': 'hf', 'unix': 1, 'kinds': ''.join(ks)})
+    return out
+
+
+def ho_cases(rng, big):
+    import itertools
+    out = hf_cases(big)
     for n in range(0, (7 if not big else 9)):
         for sch in itertools.product(range(2), repeat=n):
             out.append(ho_case(2, sch))
@@ -1904,6 +2122,8 @@ def corpus():
     # the interleaving that breaks a hand-off whose address is sent outside the lock
     cs.append(ho_case(2, [0, 1, 0, 0, 0, 1, 1, 1]))
     cs.append(ho_case(2, [0, 1]))
+    cs.append({'kind': 'hf', 'unix': 1, 'kinds': 'tu'})        # --unix-socket-path + --ports: TCP client first
+    cs.append({'kind': 'hf', 'unix': 0, 'kinds': 'tt'})
     cs.append(ho_case(3, [0, 1, 2, 0, 1, 2, 2, 1, 0]))
     # CONNECT, upstream data, select timeout, short write, upstream EOF, drain (the example of C17.lean)
     cs.append(h_case('tunnel', [
@@ -1932,6 +2152,8 @@ def live_cases(tier, rng):
             out.append(live_case(scn, size, conc, 2))
         for scn, size, conc in BURSTS:
             out.append(live_case(scn, size, conc, 1, 4))
+        for scn, size, conc in IDLES:
+            out.append(live_case(scn, size, conc, 1))
     else:
         for nw in (1, 2, 4):
             for scn, size, conc in QUICK_SCENARIOS:
@@ -1943,6 +2165,8 @@ def live_cases(tier, rng):
                 out.append(live_case(scn, size, conc, nw))
             for scn, size, conc in BURSTS + [('burst', 3, 64), ('burst_fwd', 2, 40)]:
                 out.append(live_case(scn, size, conc, nw, 4))
+            for scn, size, conc in IDLES + [('idle_busy_neighbours', 2000, 5), ('seq_unix_tcp', 70000, 4)]:
+                out.append(live_case(scn, size, conc, nw))
             for _ in range(6):
                 scn = rng.choice(['fwd_post', 'fwd_get_keep', 'fwd_persistent', 'tunnel_echo', 'fwd_chunked',
                                   'fwd_close_delim', 'mixed'])
@@ -1998,6 +2222,8 @@ def describe(case):
         return ['fd ' + case['mode']]
     if k == 'ho':
         return ['ho k=%d' % case['k']]
+    if k == 'hf':
+        return ['hf unix=%d' % case['unix'], 'hf n=%d' % len(case['kinds'])]
     return ['live ' + case['scn'], 'live nw=%d na=%d' % (case['nw'], case.get('na', case['nw'])), 'live conc=%d' % case['conc'],
             'live size ' + ('<64K' if case['size'] < 65536 else '<1M' if case['size'] < 1048576 else '>=1M')]
 
